@@ -514,6 +514,13 @@ func c25Run(ctx *WorkCtx, idx int, race bool) {
 			ctx.Res.Inconcl = append(ctx.Res.Inconcl, fmt.Sprintf("case %d: execution did not finish in time but is not parked in a sync wait (%s)", idx, site))
 		}
 		// this process cannot be reused: report what we have and leave
+		load.mu.Lock()
+		for k, v := range load.panics {
+			if !strings.Contains(k, "Value missing for hash") {
+				ctx.Res.Count("handler_panic_before_hang/"+k, v)
+			}
+		}
+		load.mu.Unlock()
 		ctx.Collect(s, idx)
 		return
 	}
